@@ -82,7 +82,7 @@ fn main() {
 fn check(prop: &str, tier: &str) -> i32 {
     match prop {
         "C19" => {
-            let cfg = BatchCfg::from_env(tier, 400_000, 40_000_000, 120.0, 1500.0);
+            let cfg = BatchCfg::from_env(tier, 1_500_000, 40_000_000, 120.0, 1500.0);
             run_batch(&reader::ReaderEngine, &cfg).exit_code
         }
         "C12" | "C13" | "C14" | "C15" => {
